@@ -59,7 +59,7 @@ COND = (f"""(define (domain c1)
   :precondition (and (not (= ?x ?y)) (or (p ?x) (r)))
   :effect (and (q ?x ?y) (when (not (r)) (m ?y))))
 (:action mark :parameters (?o - object) :precondition (and (not (m ?o))) :effect (and (m ?o) (p k)))
-(:action bump :parameters () :precondition (and) :effect (and (assign (aux) (+ (cnt) 1)))))
+(:action bump :parameters () :precondition (and) :effect (and (increase (aux) (+ (cnt) 1)))))
 """, """(define (problem c1p) (:domain c1)
 (:objects a - t1 b b2 - t2 w - t3)
 (:init (p a) (q a b) (q a b2) (= (cnt) 0))
